@@ -53,6 +53,14 @@ Theorem C02_weave_split : forall s, weave (split s) (seps_of s) = s /\ S (List.l
 Proof. exact weave_split. Qed.
 Example C02_string_ex : weave [bs "en"; bs "Latn"; bs "US"; bs "valencia"]%string [95; 45; 95]%N = bs "en_Latn-US_valencia"%string.
 Proof. vm_compute. reflexivity. Qed.
+(* the executable specifications of the langid suite (parse, canonicalize, round trip, try_from_iter, from_parts,
+   into_parts, matches, cmp / == / == &str, the seven construction routes) that judge the implementation in the
+   correspondence run are corollaries of the proved theorems: the MODEL's answer passes them on every input *)
+From UL Require Oracle OracleSound.
+Theorem C02_oracle_spec_sound : forall op args r,
+  Oracle.oracle_model_langid op args = Some r -> OracleSound.passes (Oracle.oracle_spec_langid op args r).
+Proof. exact OracleSound.langid_sound. Qed.
+
 Print Assumptions C02_string_ebnf.
 Print Assumptions C02_string_reject.
 Print Assumptions C02_weave_split.
@@ -61,3 +69,4 @@ Print Assumptions C02_accepts_exactly.
 Print Assumptions C02_recogniser_is_ebnf.
 Print Assumptions C02_iter.
 Print Assumptions C02_value_canonical.
+Print Assumptions C02_oracle_spec_sound.
